@@ -272,3 +272,123 @@ Proof.
   eexists. split; [vm_compute; reflexivity|]. intro size. unfold gtrue. cbn. change roots_len with 44.
   rewrite Z.gtb_ltb. destruct (44 <? size); reflexivity.
 Qed.
+
+(* ------------------------------------------------------------------------------------------- *)
+(* 11. rootDecRefUnlocked (collection.go): a reference is dropped; the version dies only when that was the last one
+   (Proto.decref: refs = S (S n) -> just decremented; refs = 1 -> dies); at death the tree is marked reclaimable only if
+   the version was not superseded, and a chained successor is released *)
+Theorem decref_decision : forall r : Z,
+  exists rest, body "Collection.rootDecRefUnlocked" = SIncDec (GVar "r.refs") false :: SIf [] (GBin ">" (GVar "r.refs") (GInt 0)) [SReturn []] [] :: rest /\
+  (1 < r -> gexec 10 (upd env0 "r.refs" r) (firstn 2 (body "Collection.rootDecRefUnlocked")) = RRet []) /\
+  (r = 1 -> exists rho, gexec 10 (upd env0 "r.refs" r) (firstn 2 (body "Collection.rootDecRefUnlocked")) = RFall rho /\ rho "r.refs" = Some 0).
+Proof.
+  intro r. eexists. split; [vm_compute; reflexivity|]. split.
+  - intro Hr. cbn. unfold gtrue. cbn.
+    assert (r - 1 >? 0 = true) as -> by (apply Z.gtb_lt; lia). reflexivity.
+  - intros ->. cbn. eexists. split; [reflexivity|]. reflexivity.
+Qed.
+
+Theorem death_marks_unless_superseded :
+  exists c, decisions "Collection.rootDecRefUnlocked" "r.superseded" = [c] /\
+    forall sup : bool, gtrue (upd env0 "r.superseded" (b2z sup)) c = Some (negb sup).
+Proof. eexists. split; [vm_compute; reflexivity|]. intros [|]; reflexivity. Qed.
+
+Theorem death_releases_chain :
+  exists c, decisions "Collection.rootDecRefUnlocked" "r.chainedCollection" = [c] /\
+    forall a b : bool, gtrue (upd (upd env0 "r.chainedCollection" (b2z a)) "r.chainedRootNodeLoc" (b2z b)) c = Some (a && b).
+Proof. eexists. split; [vm_compute; reflexivity|]. intros [|] [|]; reflexivity. Qed.
+
+(* rootAddRef takes exactly one reference on the current version *)
+Theorem addref_is_increment :
+  exists pre post, body "Collection.rootAddRef" = pre ++ SIncDec (GVar "t.root.refs") true :: post /\
+                   Forall (fun s => match s with SIncDec _ _ | SAssign _ _ _ => False | _ => True end) (pre ++ post).
+Proof. exists [SExpr (GCall "t.rootLock.Lock" []); SDefer (GCall "t.rootLock.Unlock" [])], [SReturn [GVar "t.root"]].
+  split; [vm_compute; reflexivity|]. repeat constructor. Qed.
+
+(* 12. Flush writes only what is not yet persisted (Disk.write_items / write_nodes skip T (Some p); an item with a
+   location is not written again: DiskFault's retry theorem rests on this) *)
+Theorem write_skips_persisted :
+  exists c1 c2, decisions "Collection.writeItems" "nloc" = [c1] /\ decisions "Collection.writeNodes" "nloc" = [c2] /\
+    forall isnil persisted : bool,
+      let rho := upd (upd env0 "nloc" (b2z (negb isnil))) "nloc.Loc().isEmpty()" (b2z (negb persisted)) in
+      gtrue rho c1 = Some (isnil || persisted) /\ gtrue rho c2 = Some (isnil || persisted).
+Proof. do 2 eexists. split; [vm_compute; reflexivity|]. split; [vm_compute; reflexivity|]. intros [|] [|]; split; reflexivity. Qed.
+
+Theorem item_written_once :
+  exists c, hd_error (conds 400 (body "itemLoc.write")) = Some c /\
+    forall empty : bool, gtrue (upd env0 "iloc.Loc().isEmpty()" (b2z empty)) c = Some empty.
+Proof. eexists. split; [vm_compute; reflexivity|]. intros [|]; reflexivity. Qed.
+
+Theorem node_written_once :
+  exists c, hd_error (conds 400 (body "nodeLoc.write")) = Some c /\
+    forall notnil empty : bool, gtrue (upd (upd env0 "nloc" (b2z notnil)) "loc.isEmpty()" (b2z empty)) c = Some (notnil && empty).
+Proof. eexists. split; [vm_compute; reflexivity|]. intros [|] [|]; reflexivity. Qed.
+
+(* 13. CopyTo flushes after every flushEvery-th item (and never when flushEvery <= 0) *)
+Theorem copyto_flush_schedule :
+  exists c, decisions "<lit:Store.CopyTo#1>" "flushEvery" = [c] /\
+    forall fe n : Z, 0 <= n ->
+      gtrue (upd (upd env0 "flushEvery" fe) "numItems" n) c = Some ((fe >? 0) && (n mod fe =? 0)).
+Proof.
+  eexists. split; [vm_compute; reflexivity|]. intros fe n Hn. unfold gtrue. cbn.
+  destruct (fe >? 0) eqn:E.
+  - assert (Hfe : 0 < fe) by (apply Z.gtb_lt in E; exact E).
+    assert ((fe =? 0) = false) as -> by (apply Z.eqb_neq; lia).
+    rewrite Z.rem_mod_nonneg by lia. cbn. destruct (n mod fe =? 0); reflexivity.
+  - reflexivity.
+Qed.
+
+(* 14. the backward scan (store.go scanBackwardsForMagicEnd): gives up at size <= rootsLen, tests the two MagicEnd
+   copies at offsets 12 and 18 of the 24-byte trailer, and otherwise moves down by exactly one byte (Disk.scan) *)
+Definition scan_loop : list gstmt :=
+  match body "Store.scanBackwardsForMagicEnd" with SFor _ _ _ b :: _ => b | _ => [] end.
+
+Theorem scan_stop_decision :
+  exists c, hd_error (conds 400 scan_loop) = Some c /\
+    forall size : Z, gtrue (upd (upd env0 "atomic.LoadInt64(&s.size)" size) "rootsLen" roots_len) c = Some (size <=? roots_len).
+Proof. eexists. split; [vm_compute; reflexivity|]. intro size. unfold gtrue. cbn. change roots_len with 44.
+  destruct (size <=? 44); reflexivity. Qed.
+
+Theorem scan_step_is_one : last scan_loop (SOther "") = SExpr (GCall "atomic.AddInt64" [GUn "&" (GVar "s.size"); GInt (-1)]).
+Proof. vm_compute. reflexivity. Qed.
+
+Theorem scan_magic_offsets :
+  exists c, nth_error (conds 400 scan_loop) 3 = Some c /\
+    c = GBin "&&" (GCall "bytes.Equal" [GVar "MagicEnd"; GCall "[:]" [GVar "rootsEnd"; GInt 12; GBin "+" (GInt 12) (GCall "len" [GVar "MagicEnd"])]])
+                  (GCall "bytes.Equal" [GVar "MagicEnd"; GCall "[:]" [GVar "rootsEnd"; GBin "+" (GInt 12) (GCall "len" [GVar "MagicEnd"]); GNil]]) /\
+    geval (upd env0 "len(MagicEnd)" (Z.of_nat (List.length g_magic_end))) (GBin "+" (GInt 12) (GCall "len" [GVar "MagicEnd"])) = Some 18 /\
+    roots_end_len = 24.
+Proof. eexists. split; [vm_compute; reflexivity|]. split; [reflexivity|]. split; reflexivity. Qed.
+
+(* 15. mutations and Flush are refused on a read-only store, Flush also without a file (MStore.snapshot_refuses) *)
+Theorem readonly_refuses :
+  hd_error (conds 400 (body "Collection.SetItem")) = Some (GVar "t.store.readOnly") /\
+  hd_error (conds 400 (body "Collection.Delete")) = Some (GVar "t.store.readOnly") /\
+  hd_error (conds 400 (body "Store.Flush")) = Some (GVar "s.readOnly") /\
+  nth_error (conds 400 (body "Store.Flush")) 1 = Some (GBin "==" (GVar "s.file") GNil) /\
+  (forall f, In f ["Collection.SetItem"; "Collection.Delete"; "Store.Flush"] ->
+     match body f with SIf [] _ (SReturn _ :: _) [] :: _ => True | _ => False end).
+Proof. repeat split; try (vm_compute; reflexivity). intros f [<-|[<-|[<-|[]]]]; vm_compute; exact I. Qed.
+
+(* 16. SetCollection: a nil comparator means bytes.Compare (C12) *)
+Theorem nil_compare_is_default :
+  match body "Store.SetCollection" with
+  | SIf [] (GBin "==" (GVar "compare") GNil) [SAssign [GVar "compare"] "=" [GVar "bytes.Compare"]] [] :: _ => True
+  | _ => False
+  end.
+Proof. vm_compute. exact I. Qed.
+
+(* 17. visitNodes stops as soon as the visitor answers false (C06 early stop) *)
+Theorem visitor_stop_decision :
+  exists c, decisions "Store.visitNodes" "visitor" = [c] /\
+    forall answer : bool, gtrue (upd env0 "visitor(nItem,depth)" (b2z answer)) c = Some (negb answer).
+Proof. eexists. split; [vm_compute; reflexivity|]. intros [|]; reflexivity. Qed.
+
+(* 18. iterators (Iter.v): Next on a closed iterator answers false without touching the channels; Close is idempotent *)
+Theorem iterator_closed_guards :
+  match body "iterator.Next" with SIf [] (GVar "it.closed") [SReturn [GVar "false"]] [] :: _ => True | _ => False end /\
+  match body "iterator.Close" with
+  | [SIf [] (GVar "it.closed") [SReturn []] []; SExpr (GCall "close" [GVar "it.next"]); SAssign [GVar "it.closed"] "=" [GVar "true"]] => True
+  | _ => False
+  end.
+Proof. split; vm_compute; exact I. Qed.
